@@ -343,6 +343,13 @@ void parse_itmz_token_chain(mmd_engine * e, token * chain) {
 			walker = walker->next;
 		}
 
+		// The metadata block ends at a blank line; a body that followed the closing
+		// YAML fence directly does not bring one
+		if (metadata->currentStringLength && final->currentStringLength &&
+				(final->str[0] != '\n') && (final->str[0] != '\r')) {
+			d_string_append_c(metadata, '\n');
+		}
+
 		// Append body to metadata
 		d_string_append_c_array(metadata, final->str, final->currentStringLength);
 
